@@ -54,13 +54,17 @@ void Eigen::conv2d_fw_impl(
               for (
                   std::uint32_t w_y = 0, w_y_inv = w_height - 1;
                   w_y < w_height; ++w_y, --w_y_inv) {
-                const std::int32_t x_y
-                  = -padding0 + y_y * stride0 + w_y * dilation0;
-                const std::int32_t x_x
-                  = -padding1 + y_x * stride1 + w_x * dilation1;
+                // NOTE: 64-bit signed arithmetic. With 32 bits a padding
+                // close to 2^32 wraps around into the valid range.
+                const std::int64_t x_y
+                  = static_cast<std::int64_t>(y_y) * stride0
+                  + static_cast<std::int64_t>(w_y) * dilation0 - padding0;
+                const std::int64_t x_x
+                  = static_cast<std::int64_t>(y_x) * stride1
+                  + static_cast<std::int64_t>(w_x) * dilation1 - padding1;
 
-                if (x_y >= 0 && x_y < static_cast<std::int32_t>(x_height)
-                    && x_x >= 0 && x_x < static_cast<std::int32_t>(x_width)) {
+                if (x_y >= 0 && x_y < static_cast<std::int64_t>(x_height)
+                    && x_x >= 0 && x_x < static_cast<std::int64_t>(x_width)) {
                   const std::uint32_t x_addr
                     = (x_c * x_width + x_x) * x_height + x_y;
                   const std::uint32_t w_addr
@@ -125,13 +129,17 @@ void Eigen::conv2d_bw_impl(
               for (
                   std::uint32_t w_y = 0, w_y_inv = w_height - 1;
                   w_y < w_height; ++w_y, --w_y_inv) {
-                const std::int32_t x_y
-                  = -padding0 + y_y * stride0 + w_y * dilation0;
-                const std::int32_t x_x
-                  = -padding1 + y_x * stride1 + w_x * dilation1;
+                // NOTE: 64-bit signed arithmetic. With 32 bits a padding
+                // close to 2^32 wraps around into the valid range.
+                const std::int64_t x_y
+                  = static_cast<std::int64_t>(y_y) * stride0
+                  + static_cast<std::int64_t>(w_y) * dilation0 - padding0;
+                const std::int64_t x_x
+                  = static_cast<std::int64_t>(y_x) * stride1
+                  + static_cast<std::int64_t>(w_x) * dilation1 - padding1;
 
-                if (x_y >= 0 && x_y < static_cast<std::int32_t>(x_height)
-                    && x_x >= 0 && x_x < static_cast<std::int32_t>(x_width)) {
+                if (x_y >= 0 && x_y < static_cast<std::int64_t>(x_height)
+                    && x_x >= 0 && x_x < static_cast<std::int64_t>(x_width)) {
                   const std::uint32_t x_addr
                     = (x_c * x_width + x_x) * x_height + x_y;
                   const std::uint32_t w_addr
